@@ -5,6 +5,7 @@ import (
 	"strings"
 
 	"github.com/antonmedv/expr"
+	"github.com/antonmedv/expr/ast"
 
 	"verif/mc/gen"
 	"verif/mc/henv"
@@ -30,17 +31,18 @@ type c17Table struct {
 }
 
 var (
-	fOpAdd  = c17Fn{"OpAdd", gen.TInt, gen.TInt, gen.TInt, ""}
-	fOpAddF = c17Fn{"OpAddF", gen.TFloat, gen.TFloat, gen.TFloat, ""}
-	fOpCat  = c17Fn{"OpCat", gen.TStr, gen.TStr, gen.TStr, ""}
-	fOpSubS = c17Fn{"OpSubS", gen.TStr, gen.TStr, gen.TStr, ""}
-	fOpEq   = c17Fn{"OpEqObj", gen.TObj, gen.TObj, gen.TBool, ""}
-	fOpLt   = c17Fn{"OpLtObj", gen.TObj, gen.TObj, gen.TBool, ""}
-	fOpAny  = c17Fn{"OpAny", gen.TAny, gen.TAny, gen.TAny, "any"}
-	fOpIn   = c17Fn{"OpIn", gen.TStr, gen.TStr, gen.TBool, ""}
-	fOpAnd  = c17Fn{"OpAnd", gen.TInt, gen.TInt, gen.TBool, ""}
-	fFnAdd  = c17Fn{"FnOpAdd", gen.TInt, gen.TInt, gen.TInt, ""}
-	fOpStr  = c17Fn{"OpStr", gen.TObj, gen.TObj, gen.TStr, "stringer"}
+	fOpAdd   = c17Fn{"OpAdd", gen.TInt, gen.TInt, gen.TInt, ""}
+	fOpAddF  = c17Fn{"OpAddF", gen.TFloat, gen.TFloat, gen.TFloat, ""}
+	fOpCat   = c17Fn{"OpCat", gen.TStr, gen.TStr, gen.TStr, ""}
+	fOpSubS  = c17Fn{"OpSubS", gen.TStr, gen.TStr, gen.TStr, ""}
+	fOpEq    = c17Fn{"OpEqObj", gen.TObj, gen.TObj, gen.TBool, ""}
+	fOpLt    = c17Fn{"OpLtObj", gen.TObj, gen.TObj, gen.TBool, ""}
+	fOpAny   = c17Fn{"OpAny", gen.TAny, gen.TAny, gen.TAny, "any"}
+	fOpIn    = c17Fn{"OpIn", gen.TStr, gen.TStr, gen.TBool, ""}
+	fOpAnd   = c17Fn{"OpAnd", gen.TInt, gen.TInt, gen.TBool, ""}
+	fFnAdd   = c17Fn{"FnOpAdd", gen.TInt, gen.TInt, gen.TInt, ""}
+	fOpStr   = c17Fn{"OpStr", gen.TObj, gen.TObj, gen.TStr, "stringer"}
+	fOpAnyEq = c17Fn{"OpAnyEq", gen.TAny, gen.TAny, gen.TBool, "any"}
 )
 
 var c17Tables = []c17Table{
@@ -52,6 +54,7 @@ var c17Tables = []c17Table{
 	{"interface parameters", map[string][]c17Fn{"+": {fOpAny}}},
 	{"in and and", map[string][]c17Fn{"in": {fOpIn}, "and": {fOpAnd}}},
 	{"stringer interface", map[string][]c17Fn{"+": {fOpStr, fOpAdd}}},
+	{"interface equality", map[string][]c17Fn{"==": {fOpAnyEq}}},
 }
 
 func (t c17Table) options() []expr.Option {
@@ -91,6 +94,8 @@ func c17Grammar() *gen.Grammar {
 		gen.Cond(gen.TInt), gen.Cond(gen.TStr), gen.Un("not", T, T), gen.Un("-", gen.TInt, gen.TInt),
 		gen.ArrAs(gen.TAnyArr, gen.TInt), gen.ArrAs(gen.TAnyArr, gen.TStr, gen.TInt), gen.MapLit([]string{"a"}, gen.TInt), gen.MapLit([]string{"a"}, gen.TStr),
 		gen.Len(gen.TAnyArr), gen.Len(gen.TStr), gen.Len(gen.TIntArr),
+		{Op: "elvis", Out: T, In: []gen.Slot{{T: T, Operand: true, Closure: -1}, {T: T, Operand: true, Closure: -1}}, Fmt: "%s ?: %s"},
+		{Op: "elvis", Out: gen.TInt, In: []gen.Slot{{T: gen.TInt, Operand: true, Closure: -1}, {T: gen.TInt, Operand: true, Closure: -1}}, Fmt: "%s ?: %s"},
 	}
 	return gen.NewGrammar(rules)
 }
@@ -154,6 +159,29 @@ func c17Oracle(e *gen.Expr, t c17Table, only string) (out []mismatch, runs int64
 		}
 		pO, errO := lib.Compile(src, m, t.options()...)
 		pC, errC := lib.Compile(src2, m)
+		if errC == nil && errO == nil && m.Env == "struct" && m.Opt {
+			// the same pair with an unknown name that a user visitor repairs (the first type check fails)
+			wrap := func(s string) string { return "[" + s + ", Zfix][0]" }
+			pO2, eO2 := lib.Compile(wrap(src), m, append(t.options(), expr.Patch(c17Repair{}))...)
+			pC2, eC2 := lib.Compile(wrap(src2), m, expr.Patch(c17Repair{}))
+			if eC2 == nil && eO2 != nil {
+				if only == "" || only == m.String()+"|operator-form-rejected-with-repairing-visitor" {
+					out = append(out, mismatch{m.String(), "operator-form-rejected-with-repairing-visitor", henv.Val{}, eO2.Error()})
+				}
+			} else if eC2 == nil && eO2 == nil {
+				for _, v := range vals {
+					a, ea := lib.Run(pO2, m.RunEnv(henv.Make(v), append(names, "I")))
+					b, eb := lib.Run(pC2, m.RunEnv(henv.Make(v), append(names, "I")))
+					runs += 2
+					if (ea == nil) != (eb == nil) || (ea == nil && henv.Norm(a) != henv.Norm(b)) {
+						if only == "" || only == m.String()+"|differs-with-repairing-visitor" {
+							out = append(out, mismatch{m.String(), "differs-with-repairing-visitor", v, fmt.Sprintf("operator form %s %v, call form %s %v", henv.Norm(a), ea, henv.Norm(b), eb)})
+						}
+						break
+					}
+				}
+			}
+		}
 		add := func(kind string, v henv.Val, d string) {
 			if only == "" || only == m.String()+"|"+kind {
 				out = append(out, mismatch{m.String(), kind, v, d})
@@ -266,4 +294,14 @@ func c17(r *report.Run) {
 	r.Set("distinct_nontrivial", rewrittenCases)
 	r.Assume("an occurrence matches a candidate when its static operand types equal the candidate's parameter types (interface parameters: implemented by the operand type); the first matching candidate in table order applies")
 	r.Assume("expressions with an occurrence that has neither an applicable overload nor a built-in meaning are not programs and are skipped")
+}
+
+// c17Repair renames the unknown identifier Zfix to I: the first type check fails, the second succeeds.
+type c17Repair struct{}
+
+func (c17Repair) Enter(*ast.Node) {}
+func (c17Repair) Exit(n *ast.Node) {
+	if id, ok := (*n).(*ast.IdentifierNode); ok && id.Value == "Zfix" {
+		ast.Patch(n, &ast.IdentifierNode{Value: "I"})
+	}
 }
